@@ -73,7 +73,7 @@ func genTimeout(r *core.Rand) string {
 	case 2: // overflowing hours
 		return strconv.Itoa(2562048+r.Intn(90000000)) + "H"
 	case 3: // largest non-overflowing hours and neighbours
-		return strconv.Itoa(2562047-r.Intn(2)) + "H"
+		return r.PickS("", "0") + strconv.Itoa(r.Pick(2562046, 2562047, 2562048, 2562049)) + "H"
 	case 4: // zero
 		return strings.Repeat("0", 1+r.Intn(8)) + u
 	case 5: // malformed: no number
@@ -122,6 +122,12 @@ func genC15(r *core.Rand, run int) *MuxScenario {
 			}
 		}
 		sp.Handler = h
+		if strings.HasPrefix(proto, "grpc") && r.Chance(1, 20) { // (a run with a backend costs as much as fifty without)
+			// the method lives on a backend: the deadline has to travel on
+			sc.Backends = []BackendSpec{{Tag: "b1", Services: []string{tsvc}}}
+			sc.Local = []string{"larking.testpb.ChatRoom"}
+			sp.Backend = "b1"
+		}
 		sc.Reqs = []ReqSpec{sp}
 		sc.Note = "deadline"
 		const farAway = 100 * 365 * 24 * time.Hour // beyond this the fake clock itself cannot be pushed
@@ -259,8 +265,12 @@ func oracleDeadline(mr *muxRun, rs *reqState, cnt *[core.NumCounters]int) *Viola
 		return v
 	}
 	sp := rs.spec
-	l := &rs.hlog
+	l := rs.log()
+	proxied := sp.Backend != ""
 	ctx := "deadline/" + sp.Proto + "/" + rs.method.Shape()
+	if proxied {
+		ctx += "+proxied"
+	}
 	resp := rs.q.response()
 	fail := func(rule, format string, args ...any) *Violation {
 		return violationf("C15", rule, ctx, "grpc-timeout %q: "+format, append([]any{sp.Timeout}, args...)...)
@@ -304,6 +314,18 @@ func oracleDeadline(mr *muxRun, rs *reqState, cnt *[core.NumCounters]int) *Viola
 		return nil
 	}
 	cnt[cDeadlineExact]++
+	if proxied {
+		// the deadline reaches the backend as a grpc-timeout that grpc-go
+		// rounds up to a unit in which the value has at most eight digits
+		upper := d + d/10000 + time.Microsecond
+		if upper < d {
+			upper = time.Duration(1<<63 - 1) // (saturates for the largest values)
+		}
+		if got < d || got > upper {
+			return fail("deadline-mismatch", "the backend handler's deadline is %v after receipt, want %v (or that rounded up to the unit grpc-go sends it in)", got, d)
+		}
+		return nil // when and how the backend's context ends is between the proxy and grpc-go
+	}
 	if got != d {
 		return fail("deadline-mismatch", "the handler's deadline is %v after receipt, want %v", got, d)
 	}
